@@ -123,8 +123,11 @@ class TermAlg:
     """Uninterpreted-term algebra.  ``kinds`` maps input names to 'b','i','f','c'."""
     symbolic = True
 
-    def __init__(self, kinds=None):
+    def __init__(self, kinds=None, aliases=None):
         self.kinds = dict(kinds or {})
+        # input name -> canonical name: two inputs that are the very same memory (same address, shape, strides and
+        # dtype) are one uninterpreted array, not two
+        self.aliases = dict(aliases or {})
 
     # -- kinds (for cast elision) ------------------------------------------
     def kind(self, v):
@@ -177,7 +180,7 @@ class TermAlg:
         return c
 
     def read(self, name, idx):
-        return ("rd", name, tuple(idx))
+        return ("rd", self.aliases.get(name, name), tuple(idx))
 
     def nan(self):
         return ("nan",)
@@ -293,6 +296,21 @@ class TermAlg:
     # -- equality ----------------------------------------------------------
     def eq(self, a, b, sk: Skolems):
         return teq(a, b, sk)
+
+
+def alias_map(data):
+    """names of numeric inputs that are the same memory -> the first such name"""
+    first, out = {}, {}
+    for n in sorted(data):
+        a = data[n]
+        if not isinstance(a, np.ndarray) or a.size == 0:
+            continue
+        key = (a.__array_interface__["data"][0], a.shape, a.strides, a.dtype.str)
+        if key in first:
+            out[n] = first[key]
+        else:
+            first[key] = n
+    return out
 
 
 def is_concrete(x):
